@@ -315,6 +315,7 @@ package vuego
 
 // the deferred closure of interpolate resets the pooled builder before it is returned to the pool
 //@ func (v *Vue) interpolate$1()
+//@   modifies built(buf)
 
 // ---- data precedence (C08) ----
 
@@ -363,3 +364,74 @@ package vuego
 //@   modifies nothing
 //@   ensures C18.chain.order: fresh(o) && len(o.chainFS) == len(lower) + 1 && o.chainFS[0] == upper &&
 //@     forall i int :: 0 <= i && i < len(lower) ==> o.chainFS[i + 1] == lower[i]
+
+// ---- evaluation family: frames and scope-stack balance (C04, C05, C06, C16 build on these) ----
+
+//@ macro BALANCED(c) = len(c.stack.stack) == old(len(c.stack.stack)) && (forall bi int :: 0 <= bi && bi < len(c.stack.stack) ==> c.stack.stack[bi] == old(c.stack.stack[bi]))
+//@ modset caches(v) = contents(v.exprEval.programs), contents(pathCache.m)
+
+//@ func (v *Vue) callFunc(ctx, fn, args) (r, err)
+//@   trusted
+//@   modifies nothing
+//@ func (v *Vue) resolveArgument(ctx, arg) (r)
+//@   modifies caches(v)
+//@ func (v *Vue) evalFilter(ctx, seg, input, isFirst, fromInitial) (r, err)
+//@   modifies caches(v)
+//@ func (v *Vue) evalSegment(ctx, seg, input, isFirst, fromInitial) (r, err)
+//@   modifies caches(v)
+//@ func (v *Vue) evalPipe(ctx, expr) (r, err)
+//@   modifies caches(v)
+//@ func parsePipeExpr(expr) (r)
+//@   modifies nothing
+//@ func classifySegment(part) (r)
+//@   modifies nothing
+//@ func parseArgs(argStr) (r)
+//@   modifies nothing
+//@ func (v *Vue) interpolateToWriter(ctx, w, input) (err)
+//@   modifies out(w), failed(w), caches(v)
+//@ func (v *Vue) interpolate(ctx, input) (r, err)
+//@   modifies caches(v)
+//@ func (v *Vue) splitObjectItems(content) (r)
+//@   modifies nothing
+//@ func (v *Vue) parseObjectPairs(ctx, content) (r)
+//@   modifies caches(v)
+//@ func (v *Vue) evalObjectBinding(ctx, attrName, expr) (r)
+//@   modifies caches(v)
+//@ func (v *Vue) evalBoundAttribute(ctx, attrName, expr) (r, err)
+//@   modifies caches(v)
+//@ func (v *Vue) mergeStyles(staticStyle, boundStyle) (r)
+//@   modifies nothing
+//@ func (v *Vue) evalAttributes(ctx, n) (res, err)
+//@   modifies n.Attr, caches(v)
+//@   loop 0 invariant frame.locals: (len(newAttrs) == 0 || fresh(newAttrs)) && fresh(results) && results != nil
+//@   loop 1 invariant frame.locals: (len(newAttrs) == 0 || fresh(newAttrs)) && fresh(results) && results != nil
+//@   loop 2 invariant frame.locals: (len(newAttrs) == 0 || fresh(newAttrs)) && fresh(results) && results != nil
+//@   loop 3 invariant frame.locals: (len(newAttrs) == 0 || fresh(newAttrs)) && fresh(results) && results != nil
+//@ func parseStyleMap(style) (r)
+//@   modifies nothing
+//@   ensures fresh(r) && r != nil
+//@ func parseStyleString(style) (r)
+//@   modifies nothing
+//@   ensures fresh(r) && r != nil
+//@ func NewSlotScope() (r)
+//@   modifies nothing
+//@   ensures fresh(r) && r != nil && fresh(r.Slots) && r.Slots != nil
+//@ func (v *Vue) evalVHtml(ctx, n) (err)
+//@   modifies n.Attr, n.FirstChild, n.LastChild, caches(v)
+//@ func (v *Vue) evalVText(ctx, n) (err)
+//@   modifies n.Attr, n.FirstChild, n.LastChild, caches(v)
+//@ func (v *Vue) setStyleProperty(n, property, value)
+//@   modifies n.Attr, elems(n.Attr)
+//@ func (v *Vue) evalVShow(ctx, n) (err)
+//@   modifies n.Attr, elems(n.Attr), caches(v)
+//@ func (ss *SlotScope) SetSlot(name, content)
+//@   modifies contents(ss.Slots)
+//@ func extractSlotContent(node) (r)
+//@   modifies nothing
+//@ func extractFrontMatter(content) (fm, rest, err)
+//@   modifies nothing
+//@ func (l *Loader) loadFragment(filename) (fm, b, err)
+//@   modifies nothing
+//@ func (ctx VueContext) WithTemplate(filename) (r)
+//@   modifies nothing
+//@   ensures C05.shared.stack: r.stack == ctx.stack && r.seen == ctx.seen && r.SlotScope == ctx.SlotScope
